@@ -454,9 +454,9 @@ Proof.
 Qed.
 
 (* ------------------------------------------------------------------ products offsets x points *)
-Lemma in_rat : forall pl P q, In q (rat pl P) <-> exists e h, In e (rat_offsets pl) /\ In h P /\ q = xform pl e h.
+Lemma in_rat : forall allo pl P q, In q (rat allo pl P) <-> exists e h, In e (rat_offsets allo pl) /\ In h P /\ q = xform pl e h.
 Proof.
-  intros pl P q. unfold rat. destruct P as [|a P].
+  intros allo pl P q. unfold rat. destruct P as [|a P].
   - split; [intros []|intros [e [h [_ [[] _]]]]].
   - set (PP := a :: P). rewrite in_concat. split.
     + intros [l [Hl Hq]]. apply in_rev in Hl. apply in_map_iff in Hl. destruct Hl as [e [<- He]].
@@ -627,16 +627,16 @@ Qed.
 
 (* with the repetition of the reference: repeat_and_transform uses get_extrema *)
 Lemma offsets_ldom : forall pl, orep_ok (pl_rep pl) -> forall u v, u * v == 0 ->
-  ldom u v (rat_offsets pl) (all_offsets pl) /\ ldom u v (all_offsets pl) (rat_offsets pl).
+  ldom u v (rat_offsets false pl) (all_offsets pl) /\ ldom u v (all_offsets pl) (rat_offsets false pl).
 Proof.
-  intros pl Hr u v Huv. unfold rat_offsets, all_offsets. destruct (pl_rep pl) as [r|]; simpl in Hr.
+  intros pl Hr u v Huv. unfold rat_offsets, all_offsets. destruct (pl_rep pl) as [r|]; simpl in Hr; simpl.
   - destruct (rep_ok_adom r Hr) as [A B]. split; [apply B|apply A]; assumption.
   - split; apply ldom_incl, incl_refl.
 Qed.
 
 Lemma ref_box_exact_gen : forall pl P ch, orep_ok (pl_rep pl) ->
   (forall u v, u * v == 0 -> ldom (pu pl u v) (pv pl u v) P (flatten ch) /\ ldom (pu pl u v) (pv pl u v) (flatten ch) P) ->
-  is_bbox (ref_points pl ch) (bbox (rat pl P)).
+  is_bbox (ref_points pl ch) (bbox (rat false pl P)).
 Proof.
   intros pl P ch Hr HD.
   eapply is_bbox_transfer; [| |apply bbox_is_bbox]; intros u v Huv;
@@ -648,7 +648,7 @@ Proof.
 Qed.
 
 Lemma ref_box_exact_quarter : forall pl ch cb, orep_ok (pl_rep pl) -> pl_ca pl * pl_sa pl == 0 ->
-  is_bbox (flatten ch) cb -> is_bbox (ref_points pl ch) (bbox (rat pl (corners cb))).
+  is_bbox (flatten ch) cb -> is_bbox (ref_points pl ch) (bbox (rat false pl (corners cb))).
 Proof.
   intros pl ch cb Hr Hq Hb. apply ref_box_exact_gen; [assumption|].
   intros u v Huv. destruct (corners_adom _ _ Hb) as [A B].
@@ -656,15 +656,20 @@ Proof.
 Qed.
 
 Lemma ref_box_exact_hull : forall pl ch H, orep_ok (pl_rep pl) -> hull_sem H (flatten ch) ->
-  is_bbox (ref_points pl ch) (bbox (rat pl H)).
+  is_bbox (ref_points pl ch) (bbox (rat false pl H)).
 Proof.
   intros pl ch H Hr HS. apply ref_box_exact_gen; [assumption|].
   intros u v _. destruct (hull_sem_fdom _ _ HS) as [A B]. split; [apply B|apply A].
 Qed.
 
 (* hull side: the copies at the extrema cover the copies at all offsets only if the extrema cover the offsets *)
-Definition orep_cov (r : option rep) : Prop :=
-  match r with None => True | Some r => incl (exts r) (offs r) /\ covers (exts r) (offs r) end.
+(* [hall]: the hull path uses all offsets of an Explicit repetition (current tree); then nothing is asked of
+   an Explicit repetition, and of the other kinds (lattices, ExplicitX/Y) that the extrema cover the offsets *)
+Definition orep_cov (hall : bool) (r : option rep) : Prop :=
+  match r with
+  | None => True
+  | Some r => if hall && r_explicit r then True else incl (exts r) (offs r) /\ covers (exts r) (offs r)
+  end.
 
 Lemma hull_sem_trans : forall A B C, hull_sem A B -> hull_sem B C -> hull_sem A C.
 Proof. intros A B C [I1 C1] [I2 C2]. split; [eapply incl_tran; eauto|eapply covers_trans; eauto]. Qed.
@@ -680,19 +685,21 @@ Proof.
   - eapply covers_incl_l; [exact C1|]. intros p Hp. apply in_or_app. left; assumption.
 Qed.
 
-Lemma ref_hull_sem : forall pl ch H, orep_cov (pl_rep pl) -> hull_sem H (flatten ch) ->
-  hull_sem (rat pl H) (ref_points pl ch).
+Lemma ref_hull_sem : forall hall pl ch H, orep_cov hall (pl_rep pl) -> hull_sem H (flatten ch) ->
+  hull_sem (rat hall pl H) (ref_points pl ch).
 Proof.
-  intros pl ch H Hc [I C].
-  assert (IO : incl (rat_offsets pl) (all_offsets pl) /\ covers (rat_offsets pl) (all_offsets pl)).
-  { unfold rat_offsets, all_offsets. destruct (pl_rep pl) as [r|]; [exact Hc|split; [apply incl_refl|apply covers_refl]]. }
+  intros hall pl ch H Hc [I C].
+  assert (IO : incl (rat_offsets hall pl) (all_offsets pl) /\ covers (rat_offsets hall pl) (all_offsets pl)).
+  { unfold rat_offsets, all_offsets, orep_cov in *. destruct (pl_rep pl) as [r|].
+    - destruct (hall && r_explicit r); [split; [apply incl_refl|apply covers_refl]|exact Hc].
+    - split; [apply incl_refl|apply covers_refl]. }
   destruct IO as [IO CO]. split.
   - intros q Hq. apply in_rat in Hq. destruct Hq as [e [h [He [Hh ->]]]].
     apply in_ref_points. exists e, h. split; [apply IO; assumption|split; [apply I; assumption|reflexivity]].
   - intros u v k Hk q Hq. apply in_ref_points in Hq. destruct Hq as [o [p [Ho [Hp ->]]]].
     rewrite lin_xform.
     (* for every extremum e: the pulled-back functional is bounded on H, hence on the flattened child *)
-    assert (S1 : forall e, In e (rat_offsets pl) ->
+    assert (S1 : forall e, In e (rat_offsets hall pl) ->
                  lin (pu pl u v) (pv pl u v) p <= k - lin u v (pl_org pl) - lin u v e).
     { intros e He. apply (C (pu pl u v) (pv pl u v)); [|assumption].
       intros h Hh. assert (X : lin u v (xform pl e h) <= k) by (apply Hk; apply in_rat; exists e, h; auto).
@@ -745,6 +752,7 @@ Section Cells.
      collinear_fallback_refuted below for where gdstk::convex_hull does and does not) *)
   Variable chull : list pt -> list pt.
   Hypothesis chull_sem : forall S, hull_sem (chull S) S.
+  Variable hall : bool.
 
   (* the loops of cell_query are the named loops *)
   Lemma hull_loop_eq : forall rs acc ch,
@@ -753,14 +761,14 @@ Section Cells.
        | [] => (acc, ch)
        | (pl, child) :: t =>
            let info := cache_get ch (cell_name child) in
-           let '(ci, ch') := if g_hv info then (info, ch) else cell_query chull true child ch in
-           go t (acc ++ chull (rat pl (g_hull ci))) ch'
-       end) rs acc ch = hull_refs chull rs acc ch.
+           let '(ci, ch') := if g_hv info then (info, ch) else cell_query_g chull hall true child ch in
+           go t (acc ++ chull (rat hall pl (g_hull ci))) ch'
+       end) rs acc ch = hull_refs chull hall rs acc ch.
   Proof.
     induction rs as [|[pl child] t IH]; intros acc ch; [reflexivity|].
-    simpl. unfold ref_hull_c.
+    simpl. unfold ref_hull_g.
     destruct (if g_hv (cache_get ch (cell_name child)) then (cache_get ch (cell_name child), ch)
-              else cell_query chull true child ch) as [ci ch']. apply IH.
+              else cell_query_g chull hall true child ch) as [ci ch']. apply IH.
   Qed.
   Lemma box_loop_eq : forall rs acc ch,
     (fix go (rs : list (placement * cell)) (acc : box) (ch : cache) {struct rs} : box * cache :=
@@ -769,26 +777,26 @@ Section Cells.
        | (pl, child) :: t =>
            let info := cache_get ch (cell_name child) in
            if pl_quarter pl then
-             let '(ci, ch') := if g_bv info then (info, ch) else cell_query chull false child ch in
-             go t (box_join acc (bbox (rat pl (corners (g_box ci))))) ch'
+             let '(ci, ch') := if g_bv info then (info, ch) else cell_query_g chull hall false child ch in
+             go t (box_join acc (bbox (rat false pl (corners (g_box ci))))) ch'
            else
-             let '(ci, ch') := if g_hv info then (info, ch) else cell_query chull true child ch in
-             go t (box_join acc (bbox (rat pl (g_hull ci)))) ch'
-       end) rs acc ch = box_refs chull rs acc ch.
+             let '(ci, ch') := if g_hv info then (info, ch) else cell_query_g chull hall true child ch in
+             go t (box_join acc (bbox (rat false pl (g_hull ci)))) ch'
+       end) rs acc ch = box_refs chull hall rs acc ch.
   Proof.
     induction rs as [|[pl child] t IH]; intros acc ch; [reflexivity|].
-    simpl. unfold ref_bbox_c. destruct (pl_quarter pl).
+    simpl. unfold ref_bbox_g. destruct (pl_quarter pl).
     - destruct (if g_bv (cache_get ch (cell_name child)) then (cache_get ch (cell_name child), ch)
-                else cell_query chull false child ch) as [ci ch']. apply IH.
+                else cell_query_g chull hall false child ch) as [ci ch']. apply IH.
     - destruct (if g_hv (cache_get ch (cell_name child)) then (cache_get ch (cell_name child), ch)
-                else cell_query chull true child ch) as [ci ch']. apply IH.
+                else cell_query_g chull hall true child ch) as [ci ch']. apply IH.
   Qed.
 
   (* a family of cells closed under "child of", with unique names, C11 facts on every repetition,
      quarter flags that mean cos*sin = 0, and reference repetitions whose extrema cover the offsets *)
   Variable U : cell -> Prop.
   Definition ref_wf (pl : placement) : Prop :=
-    orep_ok (pl_rep pl) /\ orep_cov (pl_rep pl) /\ (pl_quarter pl = true -> pl_ca pl * pl_sa pl == 0).
+    orep_ok (pl_rep pl) /\ orep_cov hall (pl_rep pl) /\ (pl_quarter pl = true -> pl_ca pl * pl_sa pl == 0).
   Definition cell_wf (c : cell) : Prop :=
     (forall p, In p (cell_polys c) -> orep_ok (p_rep p)) /\ (forall l, In l (cell_labels c) -> orep_ok (l_rep l)) /\
     (forall p, In p (cell_paths c) -> orep_ok (p_rep p)) /\ (forall pl ch, In (pl, ch) (cell_refs c) -> ref_wf pl).
@@ -820,57 +828,57 @@ Section Cells.
     cache_ok (snd r) /\
     (if q then g_hv (fst r) = true /\ hull_sem (g_hull (fst r)) (flatten c)
      else g_bv (fst r) = true /\ is_bbox (flatten c) (g_box (fst r))).
-  Definition cell_good (c : cell) : Prop := forall q ch, cache_ok ch -> post q c (cell_query chull q c ch).
+  Definition cell_good (c : cell) : Prop := forall q ch, cache_ok ch -> post q c (cell_query_g chull hall q c ch).
 
   Lemma ref_hull_c_ok : forall pl child ch, U child -> ref_wf pl -> cell_good child -> cache_ok ch ->
-    cache_ok (snd (ref_hull_c chull pl child ch)) /\ hull_sem (fst (ref_hull_c chull pl child ch)) (ref_points pl child).
+    cache_ok (snd (ref_hull_g chull hall pl child ch)) /\ hull_sem (fst (ref_hull_g chull hall pl child ch)) (ref_points pl child).
   Proof.
-    intros pl child ch Uc [Ro [Rc Rq]] G Hch. unfold ref_hull_c.
+    intros pl child ch Uc [Ro [Rc Rq]] G Hch. unfold ref_hull_g.
     destruct (g_hv (cache_get ch (cell_name child))) eqn:E.
     - simpl. split; [assumption|]. eapply hull_sem_trans; [apply chull_sem|]. apply ref_hull_sem; [assumption|].
       destruct Hch as [A _]. apply (A child Uc). assumption.
-    - specialize (G true ch Hch). destruct (cell_query chull true child ch) as [ci ch']. destruct G as [G1 [G2 G3]].
+    - specialize (G true ch Hch). destruct (cell_query_g chull hall true child ch) as [ci ch']. destruct G as [G1 [G2 G3]].
       simpl in *. split; [assumption|]. eapply hull_sem_trans; [apply chull_sem|]. apply ref_hull_sem; assumption.
   Qed.
 
   Lemma ref_bbox_c_ok : forall pl child ch, U child -> ref_wf pl -> cell_good child -> cache_ok ch ->
-    cache_ok (snd (ref_bbox_c chull pl child ch)) /\ is_bbox (ref_points pl child) (fst (ref_bbox_c chull pl child ch)).
+    cache_ok (snd (ref_bbox_g chull hall pl child ch)) /\ is_bbox (ref_points pl child) (fst (ref_bbox_g chull hall pl child ch)).
   Proof.
-    intros pl child ch Uc [Ro [Rc Rq]] G Hch. unfold ref_bbox_c. destruct (pl_quarter pl) eqn:Q.
+    intros pl child ch Uc [Ro [Rc Rq]] G Hch. unfold ref_bbox_g. destruct (pl_quarter pl) eqn:Q.
     - specialize (Rq eq_refl). destruct (g_bv (cache_get ch (cell_name child))) eqn:E.
       + simpl. split; [assumption|]. apply ref_box_exact_quarter; try assumption.
         destruct Hch as [A _]. apply (A child Uc). assumption.
-      + specialize (G false ch Hch). destruct (cell_query chull false child ch) as [ci ch']. destruct G as [G1 [G2 G3]].
+      + specialize (G false ch Hch). destruct (cell_query_g chull hall false child ch) as [ci ch']. destruct G as [G1 [G2 G3]].
         simpl in *. split; [assumption|]. apply ref_box_exact_quarter; assumption.
     - destruct (g_hv (cache_get ch (cell_name child))) eqn:E.
       + simpl. split; [assumption|]. apply ref_box_exact_hull; [assumption|].
         destruct Hch as [A _]. apply (A child Uc). assumption.
-      + specialize (G true ch Hch). destruct (cell_query chull true child ch) as [ci ch']. destruct G as [G1 [G2 G3]].
+      + specialize (G true ch Hch). destruct (cell_query_g chull hall true child ch) as [ci ch']. destruct G as [G1 [G2 G3]].
         simpl in *. split; [assumption|]. apply ref_box_exact_hull; assumption.
   Qed.
 
   Lemma hull_refs_ok : forall rs, (forall pl ch, In (pl, ch) rs -> U ch /\ ref_wf pl /\ cell_good ch) ->
     forall acc accF ch, cache_ok ch -> hull_sem acc accF ->
-    cache_ok (snd (hull_refs chull rs acc ch)) /\ hull_sem (fst (hull_refs chull rs acc ch)) (accF ++ refs_points rs).
+    cache_ok (snd (hull_refs chull hall rs acc ch)) /\ hull_sem (fst (hull_refs chull hall rs acc ch)) (accF ++ refs_points rs).
   Proof.
     induction rs as [|[pl child] t IH]; intros Hrs acc accF ch Hch Hacc; simpl.
     - rewrite app_nil_r. auto.
     - destruct (Hrs pl child (or_introl eq_refl)) as [Uc [Rw G]].
       destruct (ref_hull_c_ok pl child ch Uc Rw G Hch) as [K1 K2].
-      destruct (ref_hull_c chull pl child ch) as [h ch']. simpl in K1, K2.
+      destruct (ref_hull_g chull hall pl child ch) as [h ch']. simpl in K1, K2.
       unfold refs_points. simpl. rewrite app_assoc. apply IH; [intros; apply Hrs; right; assumption|assumption|].
       apply hull_sem_app; assumption.
   Qed.
 
   Lemma box_refs_ok : forall rs, (forall pl ch, In (pl, ch) rs -> U ch /\ ref_wf pl /\ cell_good ch) ->
     forall acc accF ch, cache_ok ch -> is_bbox accF acc ->
-    cache_ok (snd (box_refs chull rs acc ch)) /\ is_bbox (accF ++ refs_points rs) (fst (box_refs chull rs acc ch)).
+    cache_ok (snd (box_refs chull hall rs acc ch)) /\ is_bbox (accF ++ refs_points rs) (fst (box_refs chull hall rs acc ch)).
   Proof.
     induction rs as [|[pl child] t IH]; intros Hrs acc accF ch Hch Hacc; simpl.
     - rewrite app_nil_r. auto.
     - destruct (Hrs pl child (or_introl eq_refl)) as [Uc [Rw G]].
       destruct (ref_bbox_c_ok pl child ch Uc Rw G Hch) as [K1 K2].
-      destruct (ref_bbox_c chull pl child ch) as [b ch']. simpl in K1, K2.
+      destruct (ref_bbox_g chull hall pl child ch) as [b ch']. simpl in K1, K2.
       unfold refs_points. simpl. rewrite app_assoc. apply IH; [intros; apply Hrs; right; assumption|assumption|].
       apply is_bbox_join; assumption.
   Qed.
@@ -891,9 +899,9 @@ Section Cells.
       split; [assumption|split; [apply (Wr pl d HI)|apply (IHrs pl d HI Ud)]]. }
     destruct q.
     - (* Cell::convex_hull(cache) *)
-      unfold c at 2. cbn [cell_query]. rewrite hull_loop_eq.
+      unfold c at 2. cbn [cell_query_g]. rewrite hull_loop_eq.
       destruct (hull_refs_ok rs Hrs [] [] ch Hch (hull_sem_refl [])) as [K1 K2].
-      destruct (hull_refs chull rs [] ch) as [rpts ch1]. simpl in K1, K2.
+      destruct (hull_refs chull hall rs [] ch) as [rpts ch1]. simpl in K1, K2.
       set (pts := rpts ++ poly_points ps ++ label_points ls ++ poly_points fs).
       set (info := cache_get ch1 n).
       assert (HP : hull_sem (chull pts) (flatten c)).
@@ -919,7 +927,7 @@ Section Cells.
         split; simpl; [|intros _; exact HH]. destruct K1 as [A _]. apply (A c Uc).
       + split; [reflexivity|exact HH].
     - (* Cell::bounding_box(cache) *)
-      unfold c at 2. cbn [cell_query].
+      unfold c at 2. cbn [cell_query_g].
       set (info := cache_get ch n).
       destruct (g_hv info) eqn:E.
       + assert (HS : hull_sem (g_hull info) (flatten c)) by (destruct Hch as [A _]; apply (A c Uc); exact E).
@@ -933,7 +941,7 @@ Section Cells.
           by (apply fold_polys_is_bbox; [assumption|reflexivity]).
         pose proof (fold_labels_is_bbox ls _ _ Wl B1) as B2.
         destruct (box_refs_ok rs Hrs _ _ ch Hch B2) as [K1 K2].
-        destruct (box_refs chull rs _ ch) as [b3 ch1]. simpl in K1, K2.
+        destruct (box_refs chull hall rs _ ch) as [b3 ch1]. simpl in K1, K2.
         pose proof (fold_polys_is_bbox fs _ _ Wf K2) as B4.
         assert (B : is_bbox (flatten c)
                  (fold_left (fun acc p => box_join acc (polygon_bbox (p_pts p) (p_rep p))) fs b3)).
@@ -946,41 +954,42 @@ Section Cells.
   Qed.
 End Cells.
 
-(* ------------------------------------------------------------------ C09 theorems: cells, cache *)
-Definition family_ok (U : cell -> Prop) : Prop :=
+(* ------------------------------------------------------------------ cells, cache: generic in the hull routine [chull]
+   (any function meeting hull_sem on every input) and in [hall] (hull path with all Explicit offsets or not) *)
+Definition family_ok_g (hall : bool) (U : cell -> Prop) : Prop :=
   (forall c pl ch, U c -> In (pl, ch) (cell_refs c) -> U ch) /\
   (forall c d, U c -> U d -> cell_name c = cell_name d -> c = d) /\
-  (forall c, U c -> cell_wf c).
+  (forall c, U c -> cell_wf hall c).
 
 (* Cell::bounding_box(cache): with ANY cache whose entries are right (in particular the empty one) the box
    reported is the smallest box containing the flattened geometry, and the cache stays right *)
-Theorem cell_bbox_exact_lemma : forall chull, (forall S, hull_sem (chull S) S) ->
-  forall U, family_ok U -> forall c, U c -> forall ch, cache_ok U ch ->
-  is_bbox (flatten c) (g_box (fst (cell_query chull false c ch))) /\
-  box_eq (g_box (fst (cell_query chull false c ch))) (bbox (flatten c)) /\
-  cache_ok U (snd (cell_query chull false c ch)).
+Lemma cell_bbox_exact_gen : forall chull hall, (forall S, hull_sem (chull S) S) ->
+  forall U, family_ok_g hall U -> forall c, U c -> forall ch, cache_ok U ch ->
+  is_bbox (flatten c) (g_box (fst (cell_query_g chull hall false c ch))) /\
+  box_eq (g_box (fst (cell_query_g chull hall false c ch))) (bbox (flatten c)) /\
+  cache_ok U (snd (cell_query_g chull hall false c ch)).
 Proof.
-  intros chull Hc U [F1 [F2 F3]] c Uc ch Hch.
-  destruct (cell_query_ok chull Hc U F1 F2 F3 c Uc false ch Hch) as [K1 [K2 K3]].
+  intros chull hall Hc U [F1 [F2 F3]] c Uc ch Hch.
+  destruct (cell_query_ok chull Hc hall U F1 F2 F3 c Uc false ch Hch) as [K1 [K2 K3]].
   split; [assumption|split; [|assumption]]. eapply is_bbox_unique; [exact K3|apply bbox_is_bbox].
 Qed.
 
 (* Cell::convex_hull(cache): corners are geometry points, every half-plane containing them contains the geometry *)
-Theorem cell_hull_exact_lemma : forall chull, (forall S, hull_sem (chull S) S) ->
-  forall U, family_ok U -> forall c, U c -> forall ch, cache_ok U ch ->
-  hull_sem (g_hull (fst (cell_query chull true c ch))) (flatten c) /\
-  cache_ok U (snd (cell_query chull true c ch)).
+Lemma cell_hull_exact_gen : forall chull hall, (forall S, hull_sem (chull S) S) ->
+  forall U, family_ok_g hall U -> forall c, U c -> forall ch, cache_ok U ch ->
+  hull_sem (g_hull (fst (cell_query_g chull hall true c ch))) (flatten c) /\
+  cache_ok U (snd (cell_query_g chull hall true c ch)).
 Proof.
-  intros chull Hc U [F1 [F2 F3]] c Uc ch Hch.
-  destruct (cell_query_ok chull Hc U F1 F2 F3 c Uc true ch Hch) as [K1 [K2 K3]]. auto.
+  intros chull hall Hc U [F1 [F2 F3]] c Uc ch Hch.
+  destruct (cell_query_ok chull Hc hall U F1 F2 F3 c Uc true ch Hch) as [K1 [K2 K3]]. auto.
 Qed.
 
-Corollary empty_cell_inverted_lemma : forall chull, (forall S, hull_sem (chull S) S) ->
-  forall U, family_ok U -> forall c, U c ->
-  (g_box (fst (cell_query chull false c [])) = Inverted <-> flatten c = []).
+Lemma empty_cell_inverted_gen : forall chull hall, (forall S, hull_sem (chull S) S) ->
+  forall U, family_ok_g hall U -> forall c, U c ->
+  (g_box (fst (cell_query_g chull hall false c [])) = Inverted <-> flatten c = []).
 Proof.
-  intros chull Hc U FU c Uc.
-  destruct (cell_bbox_exact_lemma chull Hc U FU c Uc [] (cache_ok_nil U)) as [K _].
+  intros chull hall Hc U FU c Uc.
+  destruct (cell_bbox_exact_gen chull hall Hc U FU c Uc [] (cache_ok_nil U)) as [K _].
   apply (proj2 (proj2 empty_inverted_lemma) _ _ K).
 Qed.
 
@@ -989,22 +998,22 @@ Inductive query : Type :=
 | QBox (c : cell) | QHull (c : cell) | QRefBox (pl : placement) (ch : cell) | QRefHull (pl : placement) (ch : cell).
 Inductive answer : Type := ABox (b : box) | AHull (h : list pt).
 
-Definition run1 (chull : list pt -> list pt) (q : query) (ch : cache) : answer * cache :=
+Definition run1_g (chull : list pt -> list pt) (hall : bool) (q : query) (ch : cache) : answer * cache :=
   match q with
-  | QBox c => let r := cell_query chull false c ch in (ABox (g_box (fst r)), snd r)
-  | QHull c => let r := cell_query chull true c ch in (AHull (g_hull (fst r)), snd r)
-  | QRefBox pl c => let r := ref_bbox_c chull pl c ch in (ABox (fst r), snd r)
-  | QRefHull pl c => let r := ref_hull_c chull pl c ch in (AHull (fst r), snd r)
+  | QBox c => let r := cell_query_g chull hall false c ch in (ABox (g_box (fst r)), snd r)
+  | QHull c => let r := cell_query_g chull hall true c ch in (AHull (g_hull (fst r)), snd r)
+  | QRefBox pl c => let r := ref_bbox_g chull hall pl c ch in (ABox (fst r), snd r)
+  | QRefHull pl c => let r := ref_hull_g chull hall pl c ch in (AHull (fst r), snd r)
   end.
-Fixpoint run (chull : list pt -> list pt) (qs : list query) (ch : cache) : list answer :=
+Fixpoint run_g (chull : list pt -> list pt) (hall : bool) (qs : list query) (ch : cache) : list answer :=
   match qs with
   | [] => []
-  | q :: t => fst (run1 chull q ch) :: run chull t (snd (run1 chull q ch))
+  | q :: t => fst (run1_g chull hall q ch) :: run_g chull hall t (snd (run1_g chull hall q ch))
   end.
 Definition geometry (q : query) : list pt :=
   match q with QBox c | QHull c => flatten c | QRefBox pl c | QRefHull pl c => ref_points pl c end.
-Definition query_ok (U : cell -> Prop) (q : query) : Prop :=
-  match q with QBox c | QHull c => U c | QRefBox pl c | QRefHull pl c => U c /\ ref_wf pl end.
+Definition query_ok_g (hall : bool) (U : cell -> Prop) (q : query) : Prop :=
+  match q with QBox c | QHull c => U c | QRefBox pl c | QRefHull pl c => U c /\ ref_wf hall pl end.
 Definition answer_exact (q : query) (a : answer) : Prop :=
   match q, a with
   | QBox _, ABox b | QRefBox _ _, ABox b => is_bbox (geometry q) b
@@ -1018,17 +1027,17 @@ Definition answer_same (a b : answer) : Prop :=
   | _, _ => False
   end.
 
-Lemma run1_ok : forall chull, (forall S, hull_sem (chull S) S) -> forall U, family_ok U ->
-  forall q ch, query_ok U q -> cache_ok U ch ->
-  answer_exact q (fst (run1 chull q ch)) /\ cache_ok U (snd (run1 chull q ch)).
+Lemma run1_ok : forall chull hall, (forall S, hull_sem (chull S) S) -> forall U, family_ok_g hall U ->
+  forall q ch, query_ok_g hall U q -> cache_ok U ch ->
+  answer_exact q (fst (run1_g chull hall q ch)) /\ cache_ok U (snd (run1_g chull hall q ch)).
 Proof.
-  intros chull Hc U FU q ch Hq Hch. pose proof FU as [F1 [F2 F3]]. destruct q as [c|c|pl c|pl c]; simpl in *.
-  - destruct (cell_bbox_exact_lemma chull Hc U FU c Hq ch Hch) as [K1 [_ K2]]. auto.
-  - destruct (cell_hull_exact_lemma chull Hc U FU c Hq ch Hch) as [K1 K2]. auto.
+  intros chull hall Hc U FU q ch Hq Hch. pose proof FU as [F1 [F2 F3]]. destruct q as [c|c|pl c|pl c]; simpl in *.
+  - destruct (cell_bbox_exact_gen chull hall Hc U FU c Hq ch Hch) as [K1 [_ K2]]. auto.
+  - destruct (cell_hull_exact_gen chull hall Hc U FU c Hq ch Hch) as [K1 K2]. auto.
   - destruct Hq as [Uc Rw].
-    destruct (ref_bbox_c_ok chull U pl c ch Uc Rw (cell_query_ok chull Hc U F1 F2 F3 c Uc) Hch) as [K1 K2]. auto.
+    destruct (ref_bbox_c_ok chull hall U pl c ch Uc Rw (cell_query_ok chull Hc hall U F1 F2 F3 c Uc) Hch) as [K1 K2]. auto.
   - destruct Hq as [Uc Rw].
-    destruct (ref_hull_c_ok chull Hc U pl c ch Uc Rw (cell_query_ok chull Hc U F1 F2 F3 c Uc) Hch) as [K1 K2]. auto.
+    destruct (ref_hull_c_ok chull Hc hall U pl c ch Uc Rw (cell_query_ok chull Hc hall U F1 F2 F3 c Uc) Hch) as [K1 K2]. auto.
 Qed.
 
 Lemma answer_exact_same : forall q a b, answer_exact q a -> answer_exact q b -> answer_same a b.
@@ -1040,144 +1049,20 @@ Qed.
 
 (* cells unchanged, names unique: whatever was asked before through the same cache, every answer is exact and
    agrees with the answer of the same query on a fresh cache *)
-Theorem cache_transparent_lemma : forall chull, (forall S, hull_sem (chull S) S) ->
-  forall U, family_ok U -> forall qs, Forall (query_ok U) qs -> forall ch, cache_ok U ch ->
-  Forall2 (fun q a => answer_exact q a /\ answer_same a (fst (run1 chull q []))) qs (run chull qs ch).
+Lemma cache_transparent_gen : forall chull hall, (forall S, hull_sem (chull S) S) ->
+  forall U, family_ok_g hall U -> forall qs, Forall (query_ok_g hall U) qs -> forall ch, cache_ok U ch ->
+  Forall2 (fun q a => answer_exact q a /\ answer_same a (fst (run1_g chull hall q []))) qs (run_g chull hall qs ch).
 Proof.
-  intros chull Hc U FU. induction qs as [|q t IH]; intros Hqs ch Hch; simpl; [constructor|].
+  intros chull hall Hc U FU. induction qs as [|q t IH]; intros Hqs ch Hch; simpl; [constructor|].
   inversion Hqs as [|? ? Hq Ht]; subst.
-  destruct (run1_ok chull Hc U FU q ch Hq Hch) as [K1 K2].
-  destruct (run1_ok chull Hc U FU q [] Hq (cache_ok_nil U)) as [K3 _].
+  destruct (run1_ok chull hall Hc U FU q ch Hq Hch) as [K1 K2].
+  destruct (run1_ok chull hall Hc U FU q [] Hq (cache_ok_nil U)) as [K3 _].
   constructor; [|apply IH; assumption].
   split; [assumption|]. eapply answer_exact_same; eassumption.
 Qed.
 
-(* ------------------------------------------------------------------ the wrapper gdstk::convex_hull *)
-Theorem convex_hull_w_sem_lemma : forall hull, (forall S, hull_ok (hull S) S) ->
-  forall S, (length S < 4)%nat \/ same_x S = true \/ collinearb S = false -> hull_sem (convex_hull_w hull S) S.
-Proof.
-  intros hull Hh S HS. unfold convex_hull_w.
-  destruct (Nat.ltb (length S) 4) eqn:E1; [apply hull_sem_refl|].
-  destruct (same_x S) eqn:E2; [apply hull_sem_refl|].
-  destruct (collinearb S) eqn:E3; [|apply hull_ok_sem, Hh].
-  apply Nat.ltb_ge in E1. destruct HS as [HS|[HS|HS]]; [lia|discriminate|discriminate].
-Qed.
 
-(* ------------------------------------------------------------------ refuted on the current tree *)
-Definition qi (z : Z) : Q := inject_Z z.
-Definition desc_line : list pt := [(qi 0, qi 10); (qi 1, qi 9); (qi 2, qi 8); (qi 3, qi 7); (qi 4, qi 6)].
-Definition pyth : placement := mkPl (0, 0) (3 # 5) (4 # 5) false 1 false None.   (* rotation by atan2(4,3) *)
-
-(* F10: five collinear points (i, 10-i).  Whatever qhull does, the wrapper answers {(0,6),(4,10)}: corners of
-   the bounding box, not geometry points; the half-plane x - y <= -6 contains them and not the point (4,6);
-   and the box of a rotated copy of the "hull" is not the box of the rotated points. *)
-Theorem collinear_fallback_refuted : exists S : list pt,
-  (forall hull, convex_hull_w hull S = [(qi 0, qi 6); (qi 4, qi 10)]) /\
-  (forall hull, ~ incl (convex_hull_w hull S) S) /\
-  (forall hull, ~ covers (convex_hull_w hull S) S) /\
-  (forall hull, ~ box_eq (bbox (map (xform pyth zero_pt) (convex_hull_w hull S))) (bbox (map (xform pyth zero_pt) S))).
-Proof.
-  exists desc_line.
-  assert (E : forall hull, convex_hull_w hull desc_line = [(qi 0, qi 6); (qi 4, qi 10)]) by (intros; vm_compute; reflexivity).
-  split; [exact E|split; [|split]]; intros hull; rewrite E.
-  - intros I. specialize (I _ (or_introl eq_refl)). simpl in I.
-    repeat (destruct I as [I|I]; [discriminate I|]). exact I.
-  - intros C. assert (X : lin 1 (-(1)) (qi 4, qi 6) <= -(6)).
-    { apply (C 1 (-(1)) (-(6))).
-      - intros h [<-|[<-|[]]]; vm_compute; discriminate.
-      - right; right; right; right; left; reflexivity. }
-    vm_compute in X. apply X. reflexivity.
-  - vm_compute. intros [A _]. discriminate A.
-Qed.
-
-(* F9: a unit square placed by one reference with the Explicit offsets (10,0),(0,10),(9,9) (get_extrema:
-   (0,0),(10,0),(0,0),(0,10)); its parent places that cell rotated.  Every C11 fact holds, the hull routine
-   used meets its contract on every set it is given here, yet the parent's box is too small and the hull of the
-   middle cell misses the corner (10,10). *)
-Definition f9_rep : rep :=
-  mkRep [(qi 0, qi 0); (qi 10, qi 0); (qi 0, qi 10); (qi 9, qi 9)] [(qi 0, qi 0); (qi 10, qi 0); (qi 0, qi 0); (qi 0, qi 10)].
-Definition f9_sq : cell := Cell 0 [mkPoly [(qi 0, qi 0); (qi 1, qi 0); (qi 1, qi 1); (qi 0, qi 1)] None] [] [] [].
-Definition f9_mid : cell := Cell 1 [] [] [] [(mkPl (0, 0) 1 0 true 1 false (Some f9_rep), f9_sq)].
-Definition f9_top : cell := Cell 2 [] [] [] [(pyth, f9_mid)].
-Definition chull_mc : list pt -> list pt := convex_hull_w hull_mc.
-
-Theorem reference_hull_explicit_rep_refuted :
-  rep_ok f9_rep /\ ~ covers (exts f9_rep) (offs f9_rep) /\
-  ~ box_eq (g_box (fst (cell_query chull_mc false f9_top []))) (bbox (flatten f9_top)) /\
-  ~ covers (g_hull (fst (cell_query chull_mc true f9_mid []))) (flatten f9_mid) /\
-  In (qi 10, qi 10) (flatten f9_mid).
-Proof.
-  split; [|split; [|split; [|split]]].
-  - split; [|split].
-    + intros p Hp. simpl in *. intuition (subst; auto).
-    + vm_compute. repeat split; reflexivity.
-    + exists (qi 0, qi 0). split; [left; reflexivity|split; reflexivity].
-  - intros C. assert (X : lin 1 1 (qi 9, qi 9) <= 10).
-    { apply (C 1 1 10).
-      - intros h Hh. simpl in Hh. repeat (destruct Hh as [<-|Hh]; [vm_compute; discriminate|]). destruct Hh.
-      - right; right; right; left; reflexivity. }
-    vm_compute in X. apply X. reflexivity.
-  - vm_compute. intros [_ [_ [_ A]]]. discriminate A.
-  - intros C. assert (X : lin 1 1 (qi 10, qi 10) <= 12).
-    { apply (C 1 1 12).
-      - intros h Hh. vm_compute in Hh. repeat (destruct Hh as [<-|Hh]; [vm_compute; discriminate|]). destruct Hh.
-      - vm_compute. do 14 right. left. reflexivity. }
-    vm_compute in X. apply X. reflexivity.
-  - vm_compute. do 14 right. left. reflexivity.
-Qed.
-
-(* ------------------------------------------------------------------ the hypotheses are satisfiable *)
-(* a leaf with a polygon and a repeated label; a parent placing it twice: a quarter turn with a 2x1 lattice
-   (extrema = offsets) and a rotation by atan2(4,3) with magnification 2 and reflection *)
-Definition ex_rep : rep := mkRep [(qi 0, qi 0); (qi 3, qi 0)] [(qi 0, qi 0); (qi 3, qi 0)].
-Definition ex_leaf : cell :=
-  Cell 0 [mkPoly [(qi 0, qi 0); (qi 2, qi 0); (qi 1, qi 3)] None] [mkLabel (qi 5, qi 5) (Some ex_rep)] [] [].
-Definition ex_top : cell :=
-  Cell 1 [] [] []
-    [(mkPl (qi 1, qi 1) 0 1 true 1 false (Some ex_rep), ex_leaf);
-     (mkPl (qi 0, qi 7) (3 # 5) (4 # 5) false 2 true None, ex_leaf)].
-Definition ex_U (c : cell) : Prop := c = ex_leaf \/ c = ex_top.
-
-Lemma ex_rep_ok : rep_ok ex_rep.
-Proof.
-  split; [apply incl_refl|split; [apply box_eq_refl|]].
-  exists (qi 0, qi 0). split; [left; reflexivity|split; reflexivity].
-Qed.
-
-Example family_ok_example : family_ok ex_U /\ (forall S, hull_sem ((fun S => S) S) S) /\
-  box_eq (g_box (fst (cell_query (fun S => S) false ex_top []))) (bbox (flatten ex_top)).
-Proof.
-  assert (F : family_ok ex_U).
-  { split; [|split].
-    - intros c pl ch [-> | ->] HI; simpl in HI.
-      + destruct HI.
-      + destruct HI as [E|[E|[]]]; inversion E; left; reflexivity.
-    - intros c d [-> | ->] [-> | ->] E; try reflexivity; discriminate E.
-    - intros c [-> | ->]; (split; [|split; [|split]]); simpl.
-      + intros p [<-|[]]. exact I.
-      + intros l [<-|[]]. exact ex_rep_ok.
-      + intros p [].
-      + intros pl ch [].
-      + intros p [].
-      + intros l [].
-      + intros p [].
-      + intros pl ch [E|[E|[]]]; inversion E; subst; (split; [|split]); simpl.
-        * exact ex_rep_ok.
-        * split; [apply incl_refl|apply covers_refl].
-        * intros _. reflexivity.
-        * exact I.
-        * exact I.
-        * discriminate. }
-  split; [exact F|split; [intros S; apply hull_sem_refl|]].
-  destruct (cell_bbox_exact_lemma (fun S => S) (fun S => hull_sem_refl S) ex_U F ex_top (or_intror eq_refl) []
-              (cache_ok_nil ex_U)) as [_ [K _]].
-  exact K.
-Qed.
-
-(* ------------------------------------------------------------------ the proposed repair of the collinear fallback (F10)
-   [fallback_fixed] returns the lexicographically smallest and largest INPUT points.  With it the wrapper meets
-   the contract on EVERY input, so cell_bbox_exact_lemma / cell_hull_exact_lemma / cache_transparent_lemma apply
-   to the repaired wrapper without restriction on the contents (given qhull's own contract). *)
+(* ------------------------------------------------------------------ gdstk::convex_hull meets the contract on EVERY input *)
 Definition lex_le (a b : pt) : Prop := fst a < fst b \/ (fst a == fst b /\ snd a <= snd b).
 Lemma pt_ltb_true : forall a b, pt_ltb a b = true <-> fst a < fst b \/ (fst a == fst b /\ snd a < snd b).
 Proof.
@@ -1347,11 +1232,11 @@ Proof.
     pose proof (find_none _ _ F p Hp) as N. simpl in N. apply negb_false_iff in N. apply pt_eqb_true. assumption.
 Qed.
 
-Lemma fallback_fixed_sem : forall S, collinearb S = true -> hull_sem (fallback_fixed S) S.
+Lemma fallback_sem : forall S, collinearb S = true -> hull_sem (fallback S) S.
 Proof.
   intros S HC. destruct S as [|a t]; [apply hull_sem_refl|].
   destruct (fold_lex_min t a) as [Ilo Mlo]. destruct (fold_lex_max t a) as [Ihi Mhi].
-  unfold fallback_fixed. set (lo := fold_left lex_min t a) in *. set (hi := fold_left lex_max t a) in *.
+  unfold fallback. set (lo := fold_left lex_min t a) in *. set (hi := fold_left lex_max t a) in *.
   assert (HI : incl (if pt_eqb lo hi then [lo] else [lo; hi]) (a :: t)).
   { destruct (pt_eqb lo hi); intros p Hp; simpl in Hp; intuition (subst; assumption). }
   split; [exact HI|].
@@ -1367,24 +1252,239 @@ Proof.
   - eapply (segment_cover a0 b0 lo hi p); eauto.
 Qed.
 
-Theorem convex_hull_w_fixed_sem_lemma : forall hull, (forall S, hull_ok (hull S) S) ->
-  forall S, hull_sem (convex_hull_w_fixed hull S) S.
+
+(* what is asked of qhull: on inputs it actually receives (>= 4 points, not all on one vertical line, not
+   collinear) its corners are input points and every input point is a convex combination of them *)
+Definition qhull_ok (hull : list pt -> list pt) : Prop :=
+  forall S, (4 <= length S)%nat -> same_x S = false -> collinearb S = false -> hull_ok (hull S) S.
+
+Theorem convex_hull_w_sem_lemma : forall hull, qhull_ok hull -> forall S, hull_sem (convex_hull_w hull S) S.
 Proof.
-  intros hull Hh S. unfold convex_hull_w_fixed.
-  destruct (Nat.ltb (length S) 4); [apply hull_sem_refl|].
-  destruct (same_x S); [apply hull_sem_refl|].
-  destruct (collinearb S) eqn:E; [apply fallback_fixed_sem; exact E|apply hull_ok_sem, Hh].
+  intros hull Hh S. unfold convex_hull_w.
+  destruct (Nat.ltb (length S) 4) eqn:E1; [apply hull_sem_refl|]. apply Nat.ltb_ge in E1.
+  destruct (same_x S) eqn:E2; [apply hull_sem_refl|].
+  destruct (collinearb S) eqn:E; [apply fallback_sem; exact E|apply hull_ok_sem, Hh; assumption].
 Qed.
 
-Corollary cell_bbox_exact_patched_lemma : forall hull, (forall S, hull_ok (hull S) S) ->
-  forall U, family_ok U -> forall c, U c -> forall ch, cache_ok U ch ->
-  box_eq (g_box (fst (cell_query (convex_hull_w_fixed hull) false c ch))) (bbox (flatten c)) /\
-  hull_sem (g_hull (fst (cell_query (convex_hull_w_fixed hull) true c ch))) (flatten c).
+Lemma hull_ok_refl : forall S, hull_ok S S.
 Proof.
-  intros hull Hh U FU c Uc ch Hch.
-  pose proof (convex_hull_w_fixed_sem_lemma hull Hh) as HC.
-  destruct (cell_bbox_exact_lemma _ HC U FU c Uc ch Hch) as [_ [K _]].
-  destruct (cell_hull_exact_lemma _ HC U FU c Uc ch Hch) as [K2 _]. auto.
+  intros S. split; [apply incl_refl|]. intros p Hp. exists [(1, p)]. split; [|split; [|split]]; simpl.
+  - intros wh [<-|[]]. simpl. split; [lra|assumption].
+  - lra.
+  - ring.
+  - ring.
+Qed.
+
+(* the wrapper before cd7171e met the contract only outside its collinear branch *)
+Lemma convex_hull_w_old_sem_lemma : forall hull, qhull_ok hull ->
+  forall S, (length S < 4)%nat \/ same_x S = true \/ collinearb S = false -> hull_sem (convex_hull_w_old hull S) S.
+Proof.
+  intros hull Hh S HS. unfold convex_hull_w_old.
+  destruct (Nat.ltb (length S) 4) eqn:E1; [apply hull_sem_refl|]. apply Nat.ltb_ge in E1.
+  destruct (same_x S) eqn:E2; [apply hull_sem_refl|].
+  destruct (collinearb S) eqn:E3; [|apply hull_ok_sem, Hh; assumption].
+  destruct HS as [HS|[HS|HS]]; [lia|discriminate|discriminate].
+Qed.
+
+(* ------------------------------------------------------------------ C09 theorems for the code as it is now *)
+(* A family of cells closed under "child of", with unique names, where
+   - every repetition of a polygon, label, path or reference satisfies the C11 facts (rep_ok: extrema are offsets,
+     same box, the origin is an offset),
+   - a quarter flag means cos*sin == 0,
+   - a reference repetition that is NOT Explicit has extrema covering its offsets (lattice corners, the two
+     ends of an ExplicitX / ExplicitY list: parallelogram_cover_lemma); nothing more is asked of Explicit ones. *)
+Definition family_ok : (cell -> Prop) -> Prop := family_ok_g true.
+Definition query_ok : (cell -> Prop) -> query -> Prop := query_ok_g true.
+Definition run1 (chull : list pt -> list pt) := run1_g chull true.
+Definition run (chull : list pt -> list pt) := run_g chull true.
+
+Lemma ref_wf_explicit_lemma : forall pl r, pl_rep pl = Some r -> r_explicit r = true ->
+  (ref_wf true pl <-> rep_ok r /\ (pl_quarter pl = true -> pl_ca pl * pl_sa pl == 0)).
+Proof.
+  intros pl r Hr He. unfold ref_wf, orep_cov, orep_ok. rewrite Hr, He. simpl. tauto.
+Qed.
+Lemma ref_wf_other_lemma : forall pl r, pl_rep pl = Some r -> r_explicit r = false ->
+  (ref_wf true pl <-> rep_ok r /\ (incl (exts r) (offs r) /\ covers (exts r) (offs r)) /\
+                      (pl_quarter pl = true -> pl_ca pl * pl_sa pl == 0)).
+Proof.
+  intros pl r Hr He. unfold ref_wf, orep_cov, orep_ok. rewrite Hr, He. simpl. tauto.
+Qed.
+
+(* the cover premise for lattices and segments: E holds the four corners p0 + {0,m} v1 + {0,n} v2 and every
+   offset is p0 + a v1 + b v2 with 0 <= a <= m, 0 <= b <= n *)
+Lemma parallelogram_cover_lemma : forall (p0 v1 v2 : pt) (m n : Q) (E O : list pt),
+  (forall a b, (a == 0 \/ a == m) -> (b == 0 \/ b == n) ->
+     exists e, In e E /\ fst e == fst p0 + a * fst v1 + b * fst v2 /\ snd e == snd p0 + a * snd v1 + b * snd v2) ->
+  (forall o, In o O -> exists a b, 0 <= a /\ a <= m /\ 0 <= b /\ b <= n /\
+     fst o == fst p0 + a * fst v1 + b * fst v2 /\ snd o == snd p0 + a * snd v1 + b * snd v2) ->
+  covers E O.
+Proof.
+  intros p0 v1 v2 m n E O HE HO u v k Hk o Ho.
+  destruct (HO o Ho) as [a [b [A0 [A1 [B0 [B1 [Ox Oy]]]]]]].
+  assert (C : forall a' b', (a' == 0 \/ a' == m) -> (b' == 0 \/ b' == n) ->
+              lin u v p0 + a' * lin u v v1 + b' * lin u v v2 <= k).
+  { intros a' b' Ha Hb. destruct (HE a' b' Ha Hb) as [e [Ie [Ex Ey]]]. specialize (Hk e Ie).
+    unfold lin in *. rewrite Ex, Ey in Hk. lra. }
+  assert (C00 := C 0 0 (or_introl (Qeq_refl 0)) (or_introl (Qeq_refl 0))).
+  assert (Cm0 := C m 0 (or_intror (Qeq_refl m)) (or_introl (Qeq_refl 0))).
+  assert (C0n := C 0 n (or_introl (Qeq_refl 0)) (or_intror (Qeq_refl n))).
+  assert (Cmn := C m n (or_intror (Qeq_refl m)) (or_intror (Qeq_refl n))).
+  assert (G : lin u v o == lin u v p0 + a * lin u v v1 + b * lin u v v2) by (unfold lin; rewrite Ox, Oy; ring).
+  rewrite G. clear C Hk HE HO G Ox Oy.
+  set (P := lin u v p0) in *. set (A := lin u v v1) in *. set (B := lin u v v2) in *.
+  destruct (Qlt_le_dec A 0) as [SA|SA]; destruct (Qlt_le_dec B 0) as [SB|SB]; nra.
+Qed.
+
+(* Cell::bounding_box(cache): with ANY cache whose entries are right (in particular the empty one) the box
+   reported is the smallest box containing the flattened geometry, and the cache stays right *)
+Theorem cell_bbox_exact_lemma : forall hull, qhull_ok hull ->
+  forall U, family_ok U -> forall c, U c -> forall ch, cache_ok U ch ->
+  is_bbox (flatten c) (g_box (fst (cell_query (convex_hull_w hull) false c ch))) /\
+  box_eq (g_box (fst (cell_query (convex_hull_w hull) false c ch))) (bbox (flatten c)) /\
+  cache_ok U (snd (cell_query (convex_hull_w hull) false c ch)).
+Proof. intros hull Hh. exact (cell_bbox_exact_gen _ true (convex_hull_w_sem_lemma hull Hh)). Qed.
+
+(* Cell::convex_hull(cache): corners are geometry points, every half-plane containing them contains the geometry *)
+Theorem cell_hull_exact_lemma : forall hull, qhull_ok hull ->
+  forall U, family_ok U -> forall c, U c -> forall ch, cache_ok U ch ->
+  hull_sem (g_hull (fst (cell_query (convex_hull_w hull) true c ch))) (flatten c) /\
+  cache_ok U (snd (cell_query (convex_hull_w hull) true c ch)).
+Proof. intros hull Hh. exact (cell_hull_exact_gen _ true (convex_hull_w_sem_lemma hull Hh)). Qed.
+
+Corollary empty_cell_inverted_lemma : forall hull, qhull_ok hull ->
+  forall U, family_ok U -> forall c, U c ->
+  (g_box (fst (cell_query (convex_hull_w hull) false c [])) = Inverted <-> flatten c = []).
+Proof. intros hull Hh. exact (empty_cell_inverted_gen _ true (convex_hull_w_sem_lemma hull Hh)). Qed.
+
+(* cells unchanged, names unique: whatever was asked before through the same cache (cell boxes, cell hulls,
+   reference boxes, reference hulls in any order), every answer is exact and agrees with the answer of the same
+   query on a fresh cache *)
+Theorem cache_transparent_lemma : forall hull, qhull_ok hull ->
+  forall U, family_ok U -> forall qs, Forall (query_ok U) qs -> forall ch, cache_ok U ch ->
+  Forall2 (fun q a => answer_exact q a /\ answer_same a (fst (run1 (convex_hull_w hull) q [])))
+          qs (run (convex_hull_w hull) qs ch).
+Proof. intros hull Hh. exact (cache_transparent_gen _ true (convex_hull_w_sem_lemma hull Hh)). Qed.
+
+(* ------------------------------------------------------------------ regression examples: the two fixed findings *)
+Definition qi (z : Z) : Q := inject_Z z.
+Definition desc_line : list pt := [(qi 0, qi 10); (qi 1, qi 9); (qi 2, qi 8); (qi 3, qi 7); (qi 4, qi 6)].
+Definition pyth : placement := mkPl (0, 0) (3 # 5) (4 # 5) false 1 false None.   (* rotation by atan2(4,3) *)
+
+(* F10 (fixed by cd7171e).  OLD wrapper on the five collinear points (i, 10-i): {(0,6),(4,10)}, corners of the
+   bounding box, not geometry points; the half-plane x - y <= -6 contains them and not (4,6); the box of a
+   rotated copy is wrong.  The current wrapper returns the end points (0,10),(4,6). *)
+Example collinear_fallback_old_refuted_example : exists S : list pt,
+  (forall hull, convex_hull_w_old hull S = [(qi 0, qi 6); (qi 4, qi 10)]) /\
+  (forall hull, ~ incl (convex_hull_w_old hull S) S) /\
+  (forall hull, ~ covers (convex_hull_w_old hull S) S) /\
+  (forall hull, ~ box_eq (bbox (map (xform pyth zero_pt) (convex_hull_w_old hull S))) (bbox (map (xform pyth zero_pt) S))) /\
+  (forall hull, convex_hull_w hull S = [(qi 0, qi 10); (qi 4, qi 6)]).
+Proof.
+  exists desc_line.
+  assert (E : forall hull, convex_hull_w_old hull desc_line = [(qi 0, qi 6); (qi 4, qi 10)]) by (intros; vm_compute; reflexivity).
+  split; [exact E|split; [|split; [|split]]]; intros hull; try rewrite E.
+  - intros I. specialize (I _ (or_introl eq_refl)). simpl in I.
+    repeat (destruct I as [I|I]; [discriminate I|]). exact I.
+  - intros C. assert (X : lin 1 (-(1)) (qi 4, qi 6) <= -(6)).
+    { apply (C 1 (-(1)) (-(6))).
+      - intros h [<-|[<-|[]]]; vm_compute; discriminate.
+      - right; right; right; right; left; reflexivity. }
+    vm_compute in X. apply X. reflexivity.
+  - vm_compute. intros [A _]. discriminate A.
+  - vm_compute. reflexivity.
+Qed.
+
+(* F9 (fixed by d7329ad).  A unit square placed by one reference with the Explicit offsets (10,0),(0,10),(9,9)
+   (get_extrema: (0,0),(10,0),(0,0),(0,10)); its parent places that cell rotated.  Every C11 fact holds; with
+   the OLD hull path (extrema only) the parent's box is too small and the hull of the middle cell misses the
+   corner (10,10); the current functions give the exact box and a hull that covers (10,10). *)
+Definition f9_rep : rep :=
+  mkRep [(qi 0, qi 0); (qi 10, qi 0); (qi 0, qi 10); (qi 9, qi 9)] [(qi 0, qi 0); (qi 10, qi 0); (qi 0, qi 0); (qi 0, qi 10)] true.
+Definition f9_sq : cell := Cell 0 [mkPoly [(qi 0, qi 0); (qi 1, qi 0); (qi 1, qi 1); (qi 0, qi 1)] None] [] [] [].
+Definition f9_mid : cell := Cell 1 [] [] [] [(mkPl (0, 0) 1 0 true 1 false (Some f9_rep), f9_sq)].
+Definition f9_top : cell := Cell 2 [] [] [] [(pyth, f9_mid)].
+Definition chull_mc : list pt -> list pt := convex_hull_w hull_mc.
+
+Example reference_hull_explicit_rep_old_refuted_example :
+  rep_ok f9_rep /\ ~ covers (exts f9_rep) (offs f9_rep) /\
+  ~ box_eq (g_box (fst (cell_query_old chull_mc false f9_top []))) (bbox (flatten f9_top)) /\
+  ~ covers (g_hull (fst (cell_query_old chull_mc true f9_mid []))) (flatten f9_mid) /\
+  In (qi 10, qi 10) (flatten f9_mid) /\
+  box_eq (g_box (fst (cell_query chull_mc false f9_top []))) (bbox (flatten f9_top)) /\
+  In (qi 10, qi 10) (g_hull (fst (cell_query chull_mc true f9_mid []))).
+Proof.
+  split; [|split; [|split; [|split; [|split; [|split]]]]].
+  - split; [|split].
+    + intros p Hp. simpl in *. intuition (subst; auto).
+    + vm_compute. repeat split; reflexivity.
+    + exists (qi 0, qi 0). split; [left; reflexivity|split; reflexivity].
+  - intros C. assert (X : lin 1 1 (qi 9, qi 9) <= 10).
+    { apply (C 1 1 10).
+      - intros h Hh. simpl in Hh. repeat (destruct Hh as [<-|Hh]; [vm_compute; discriminate|]). destruct Hh.
+      - right; right; right; left; reflexivity. }
+    vm_compute in X. apply X. reflexivity.
+  - vm_compute. intros [_ [_ [_ A]]]. discriminate A.
+  - intros C. assert (X : lin 1 1 (qi 10, qi 10) <= 12).
+    { apply (C 1 1 12).
+      - intros h Hh. vm_compute in Hh. repeat (destruct Hh as [<-|Hh]; [vm_compute; discriminate|]). destruct Hh.
+      - vm_compute. do 14 right. left. reflexivity. }
+    vm_compute in X. apply X. reflexivity.
+  - vm_compute. do 14 right. left. reflexivity.
+  - vm_compute. repeat split; reflexivity.
+  - vm_compute. tauto.
+Qed.
+
+(* ------------------------------------------------------------------ the hypotheses are satisfiable *)
+(* a leaf with a polygon and a repeated label; a parent placing it three times: a quarter turn with a 2x1
+   lattice (extrema = offsets), a rotation by atan2(4,3) with magnification 2 and reflection, and an Explicit
+   repetition whose extrema do NOT cover its offsets *)
+Definition ex_rep : rep := mkRep [(qi 0, qi 0); (qi 3, qi 0)] [(qi 0, qi 0); (qi 3, qi 0)] false.
+Definition ex_leaf : cell :=
+  Cell 0 [mkPoly [(qi 0, qi 0); (qi 2, qi 0); (qi 1, qi 3)] None] [mkLabel (qi 5, qi 5) (Some ex_rep)] [] [].
+Definition ex_top : cell :=
+  Cell 1 [] [] []
+    [(mkPl (qi 1, qi 1) 0 1 true 1 false (Some ex_rep), ex_leaf);
+     (mkPl (qi 0, qi 7) (3 # 5) (4 # 5) false 2 true None, ex_leaf);
+     (mkPl (qi 2, qi 0) (3 # 5) (4 # 5) false 1 false (Some f9_rep), ex_leaf)].
+Definition ex_U (c : cell) : Prop := c = ex_leaf \/ c = ex_top.
+
+Lemma ex_rep_ok : rep_ok ex_rep.
+Proof.
+  split; [apply incl_refl|split; [apply box_eq_refl|]].
+  exists (qi 0, qi 0). split; [left; reflexivity|split; reflexivity].
+Qed.
+
+Example family_ok_example : family_ok ex_U /\ qhull_ok (fun S => S) /\
+  box_eq (g_box (fst (cell_query (convex_hull_w (fun S => S)) false ex_top []))) (bbox (flatten ex_top)).
+Proof.
+  assert (Q : qhull_ok (fun S => S)) by (intros S _ _ _; apply hull_ok_refl).
+  assert (F : family_ok ex_U).
+  { split; [|split].
+    - intros c pl ch [-> | ->] HI; simpl in HI.
+      + destruct HI.
+      + destruct HI as [E|[E|[E|[]]]]; inversion E; left; reflexivity.
+    - intros c d [-> | ->] [-> | ->] E; try reflexivity; discriminate E.
+    - intros c [-> | ->]; (split; [|split; [|split]]); simpl.
+      + intros p [<-|[]]. exact I.
+      + intros l [<-|[]]. exact ex_rep_ok.
+      + intros p [].
+      + intros pl ch [].
+      + intros p [].
+      + intros l [].
+      + intros p [].
+      + intros pl ch [E|[E|[E|[]]]]; inversion E; subst; (split; [|split]); simpl.
+        * exact ex_rep_ok.
+        * split; [apply incl_refl|apply covers_refl].
+        * intros _. reflexivity.
+        * exact I.
+        * exact I.
+        * discriminate.
+        * exact (proj1 reference_hull_explicit_rep_old_refuted_example).
+        * exact I.
+        * discriminate. }
+  split; [exact F|split; [exact Q|]].
+  destruct (cell_bbox_exact_lemma (fun S => S) Q ex_U F ex_top (or_intror eq_refl) [] (cache_ok_nil ex_U)) as [_ [K _]].
+  exact K.
 Qed.
 
 (* using only the corners cmin and cmax in the quarter-turn branch gives the same box: a change of the
